@@ -21,7 +21,7 @@ RULE = ("for each sampled (scenario with 2-4 simulators, latency schedule, trans
         "quick runs a seeded sample of the points of each execution, thorough all; one run per "
         "point; distinct+non-trivial = distinct (scenario, schedule, point) whose fault fired")
 LOCAL = ("stock", "gated")
-REMOTE_KINDS = ("raise", "kill_in_handler", "kill_after_reply", "torn_reply")
+REMOTE_KINDS = ("raise", "kill_in_handler", "kill_after_reply", "torn_reply", "reset_in_handler")
 C14_PROFILES = ("zero", "uniform", "per_sim", "heavy", "slow_req", "ties", "slowlink", "slowlink")
 
 
@@ -128,7 +128,7 @@ def check_one(sc, sp, f, last_req=None, f2=None):
         # the clock for "promptly" starts when mosaik can notice: at the fault if a request to the
         # simulator is outstanding, else at the next request issued to it (if there is none, the
         # rest of the run legitimately goes on without the dead simulator)
-        if f["kind"] in ("raise", "kill_in_handler", "torn_reply"):
+        if f["kind"] in ("raise", "kill_in_handler", "torn_reply", "reset_in_handler"):
             q_notice = qf
         else:
             q_notice = next((i for i in range(qf, len(hist))
